@@ -186,12 +186,28 @@ def x_sqlite(report):
         raise Unrecognised("_load_sketch_size", "the branch for max_hash > MAX_SQLITE_INT is not "
                            "`COUNT ... WHERE sketch_id=? AND (hashval >= 0 OR hashval <= convert_hash_to(max_hash))`")
     report["inputs"]["_load_sketch_size.else"] = want_else
-    report["outputs"]["sqlite"] = {"MAX_SQLITE_INT": val, "range_guards": n_guard, "range_clauses": n_clause,
+    # find(): what happens to a query that is empty after downsampling -- two shapes are modelled
+    head = ("def find(self, search_fn, query, **kwargs): search_fn.check_is_compatible(query) query_mh = query.minhash "
+            "if self.scaled > query_mh.scaled: query_mh = query_mh.downsample(scaled=self.scaled) ")
+    early = head + "if not query_mh: return picklist = None"
+    late = head + "picklist = None"
+    if norm_nc.count(early) == 1 and norm_nc.count(late) == 0:
+        empty_returns = True
+    elif norm_nc.count(late) == 1 and norm_nc.count(early) == 0:
+        empty_returns = False
+    else:
+        raise Unrecognised("SqliteIndex.find", "the prologue is neither `check; downsample; picklist = None` nor the same with "
+                           "`if not query_mh: return` after the downsampling")
+    report["inputs"]["SqliteIndex.find.prologue"] = early if empty_returns else late
+    report["outputs"]["sqlite"] = {"empty_query_returns_nothing": empty_returns, "MAX_SQLITE_INT": val, "range_guards": n_guard, "range_clauses": n_clause,
                                    "size_clause_above_max": "hashval >= 0 OR hashval <= convert_hash_to(max_hash)"}
     return f"""
 /-- `MAX_SQLITE_INT` in sqlite_index.py; `convert_hash_to/from` are the 64-bit two's-complement reinterpretation
     applied above it / below zero; the range clause `hashval >= 0 AND hashval <= ?` is used iff `max_hash <= MAX_SQLITE_INT` -/
 def sqlMaxInt : Nat := {val}
+/-- `SqliteIndex.find`: `if not query_mh: return` right after the query has been downsampled (true), or no such
+    early return (false: `max()` of no hashes raises) -/
+def sqlEmptyQueryReturnsNothing : Bool := {"true" if empty_returns else "false"}
 """
 
 
